@@ -87,15 +87,15 @@ def dec3 (n : Nat) : Bytes :=
 
 /-! ### Python `int(s)` on a latin-1 string (code points 0..255)
 
-`WS* [+-]? D (_? D)* WS*`; CPython strips with C `isspace` when the string is
-pure ASCII and with the Unicode space property otherwise (so `\x1c..\x1f`,
-`\x85`, `\xa0` count only if the string has a non-ASCII character); more than
+`WS* [+-]? D (_? D)* WS*`; CPython strips with C `isspace` (9..13, 32); for a non-ASCII string
+it first maps every character >= 127 with the Unicode space property (latin-1: `\x85`, `\xa0`)
+to a blank, characters below 127 are kept as they are (so `\x1c..\x1f` never count); more than
 4300 digits raise `ValueError` (sys.int_max_str_digits).  `none` = ValueError. -/
 
 def isDigit (c : Nat) : Bool := 48 ≤ c && c ≤ 57
 
 def isSpaceAscii (c : Nat) : Bool := (9 ≤ c && c ≤ 13) || c == 32
-def isSpaceUni (c : Nat) : Bool := isSpaceAscii c || (28 ≤ c && c ≤ 31) || c == 133 || c == 160
+def isSpaceUni (c : Nat) : Bool := isSpaceAscii c || c == 133 || c == 160
 
 def dropWhileEnd (p : Nat → Bool) (l : Bytes) : Bytes := (l.reverse.dropWhile p).reverse
 
